@@ -41,7 +41,7 @@ pub const FAULT_TOKENS: [&str; 24] = [
 /// Module kinds for module histories through one Compiler.
 pub const MODULE_KINDS: [(&str, &str); 8] = [
 	("print", "fn {f}()\n{\n\tprint!(\"a\");\n}\n"),
-	("format", "fn {f}()\n{\n\tvar buf: [16]char8;\n\tvar n: usize = format!(&buf, \"a\", 1);\n}\n"),
+	("format", "fn {f}()\n{\n\tvar x: i32 = 7;\n\tvar n: usize = len_of(format!(\"a\", x));\n}\nfn len_of(text: []char8) -> usize\n{\n\treturn: |text|\n}\n"),
 	("abort", "fn {f}(x: i32)\n{\n\tif x == 0\n\t{\n\t\tabort!();\n\t}\n}\n"),
 	("struct Foo {a: i32}", "struct Foo\n{\n\ta: i32,\n}\nfn {f}()\n{\n\tvar v: Foo = Foo { a: 1 };\n}\n"),
 	("struct Foo {b: u8, c: u8}", "struct Foo\n{\n\tb: u8,\n\tc: u8,\n}\nfn {f}()\n{\n\tvar v: Foo = Foo { b: 1, c: 2 };\n}\n"),
